@@ -2,13 +2,17 @@
 Spec: spec/StreamMgmt.tla (+StreamMgmtGen, StreamMgmtTrace). Driver: qxv sm (real QXmppClient over loopback)."""
 import collections
 import concurrent.futures
+import os
 import random
+import shutil
 
 import vf
 
 LEVEL = "model_checking"
 WORKERS = 4     # TLC workers / parallel replay chunks (shared machine)
 CHUNK = 1500
+ACTIONS = ["SendStanza", "SendNonza", "Ack", "Req", "RecvStanza", "RecvNonza", "Loss", "Reconnect", "ResumeOk", "ResumeFail",
+           "EnableOk", "EnableFail", "Destroy"]
 
 
 def edge_cover(edges, seed, maxlen=40):
@@ -162,6 +166,7 @@ def run(chk, replay=None):
     if replay:
         behs = [b for b in vf.read_ndjson(replay) if "steps" in b]
     else:
+        shutil.rmtree(os.path.join(vf.OUT, "C09-replay"), ignore_errors=True)
         edges, st0 = vf.tlc_gen("StreamMgmtGen.tla", "StreamMgmtGenEdges.cfg" if quick else "StreamMgmtGenEdgesBig.cfg",
                                 steps_key=None, keep_prefixes=True)
         tour, st1 = edge_cover(edges, chk.seed)
@@ -213,6 +218,10 @@ def run(chk, replay=None):
     chk.cov["trace_lines"] = s["lines"]
     chk.cov["steps_replayed"] = sum(1 for x in lines if x.get("e") not in ("Reset", "HarnessFailure", "Crash"))
     chk.cov["actions_replayed"] = dict(collections.Counter(x["e"] for x in lines if x.get("e") != "Reset"))
+    if not replay:
+        missing = [a for a in ACTIONS if not chk.cov["actions_replayed"].get(a)]
+        if missing:      # vacuity guard: every action of the specification must have been driven on the real client
+            raise vf.MachineryError("actions never replayed: " + ",".join(missing))
     chk.cov["diverged_executions"] = s["ndiv"]
     chk.cov["first_divergences"] = s["divs"][:3]
     chk.cov["steps_not_completed"] = s["nfail"]
@@ -248,13 +257,21 @@ def run(chk, replay=None):
         if v["prop"] in done:
             continue
         done.add(v["prop"])
+        # confirmed re-run (nothing here depends on timing; a finding that does not repeat is a harness problem, not a violation)
+        if not [f for f in failing(chk, [b], "rerun") if f[1] == v["prop"]]:
+            chk.note(f"unconfirmed: {sig} did not repeat on re-run; not reported")
+            chk.cov["unconfirmed"] = chk.cov.get("unconfirmed", 0) + 1
+            continue
         small = minimise(chk, b, v["prop"], k)
-        again = [f for f in failing(chk, [small], "confirm") if f[1] == v["prop"]]      # confirmed re-run of the small history
+        again = [f for f in failing(chk, [small], "confirm") if f[1] == v["prop"]]
         if again:
             k, _, b, mine = again[0]
             sig = "C09:" + v["prop"] + ":" + sig_of(b["steps"][:k])
+        # replay files live outside out/C09 (which every run wipes on start), so the printed path can be fed to --replay
+        rp = os.path.join(vf.OUT, "C09-replay", f"violation-{len(chk.violations) + 1}.ndjson")
+        vf.write_ndjson(rp, [b] + mine)
         chk.violation(sig, f"{v['prop']} fails at step {k} ({mine[k]['e']}) of {sig_of(b['steps'])}; "
-                      f"observed: {vf._canon(mine[k].get('o'))}", [b] + mine)
+                      f"observed: {vf._canon(mine[k].get('o'))}", replay_path=rp)
     chk.assumptions += [
         "the scripted server is honest in framing and negotiation; only its h values are arbitrary (stale, exact, beyond)",
         "h wrap-around at 2^32 is out of scope (TLC integers are 32 bit; counters stay small)",
